@@ -23,7 +23,10 @@ Inductive xop :=
 | XQRowC (id : nat)   (* QueryRow with an already cancelled context *)
 | XQIdxC (i : nat)    (* QueryRowIndex with an already cancelled context *)
 | XQRowE (id : nat)   (* QueryRow whose database query answers an error other than not-found *)
-| XGc.                (* runtime.GC() in the driver: nothing for the model *)
+| XGc                 (* runtime.GC() in the driver: nothing for the model *)
+| XExecC (w : write) (ks : list key)  (* ExecCtx whose context is cancelled inside the exec callback, after the write:
+                                         the DEL fails with the context error and is left to the background retry *)
+| XTick.              (* the cleaner's timer ticks once (CachedConn level: the driver waits for the real wheel) *)
 
 Record oobs := mkobs { o_res : rres; o_q : nat; o_dump : list (nat * key * (cval * Z)) }.
 
@@ -81,6 +84,8 @@ Definition expand (c : case) (o : xop) : list cop :=
   | XQIdxC i => [COp (QueryCancelled (IX i))]
   | XQRowE id => [COp (QueryRowDbErr id)]
   | XGc => []
+  | XExecC w ks => [COp (Fault false false true); COp (Exec w ks); COp (Fault false false false)]
+  | XTick => [COp Tick]
   end.
 
 (* run the expansion; the result is that of the last step *)
@@ -291,6 +296,21 @@ Definition spec_step (c : case) (s : sst) (o : xop) (ob : oobs) : bool * sst :=
   (* a read under a cancelled context returns the context error and does not run the query, cached or not *)
   | XQRowC _ | XQIdxC _ => (rres_eqb (o_res ob) RCtxErr && same_q && ttl_ok c false s (o_dump ob), fin s)
   | XGc => (same_q, fin s)
+  | XExecC w ks =>
+      (* the database changed, the delete could not be made: the keys may be stale until the retry has run *)
+      match apply_write w (s_t s) with
+      | None => (same_q, fin s)
+      | Some t' =>
+          let unnamed := filter (fun k => negb (opt_cval_eqb (view t' k) (view (s_t s) k)) && negb (mem k ks)) universe in
+          let s1 := set_taint (set_table s t') (fold_left (fun t k => add_key k t) (unnamed ++ ks) (s_taint s)) in
+          (same_q, fin (mkS (s_t s1) (s_f s1) (s_now s1) (s_tick s1) (s_taint s1) (s_shield s1) (s_q s1) (s_dump s1)
+                            (s_arms s1 ++ [(0%nat, (s_tick s1, ks))])))
+      end
+  | XTick =>
+      (* the retries that were waiting have run; where DEL works they have removed their keys *)
+      let ks := flat_map (fun a => if fd (fl s (fst a)) then [] else snd (snd a)) (s_arms s) in
+      (same_q, fin (mkS (s_t s) (s_f s) (s_now s) (s_tick s + 1) (fold_left (fun t k => del_key k t) ks (s_taint s))
+                        (filter (fun kt => negb (mem (fst kt) ks)) (s_shield s)) (s_q s) (s_dump s) (s_arms s)))
   | XQRowE id =>
       (* the database fails: the cache answers if it can (coherently); otherwise the error is returned and nothing
          is stored for the key *)
